@@ -106,20 +106,21 @@ type Explorer struct {
 	bounds  HarnessBounds
 	solver  string
 
-	mu       sync.Mutex
-	cond     *sync.Cond
-	queue    [][]Decision
-	active   int
-	res      *HarnessResult
-	funcs    map[string]bool
-	intr     map[string]bool
-	stubs    map[string]bool
-	stop     bool
-	violSeen map[string]bool
+	mu              sync.Mutex
+	cond            *sync.Cond
+	queue           [][]Decision
+	active          int
+	res             *HarnessResult
+	funcs           map[string]bool
+	intr            map[string]bool
+	stubs           map[string]bool
+	stop            bool
+	stopOnViolation bool
+	violSeen        map[string]bool
 }
 
-func (e *Engine) Explore(harness string, b HarnessBounds, nworkers int, solverKind string) *HarnessResult {
-	ex := &Explorer{eng: e, harness: harness, bounds: b, solver: solverKind,
+func (e *Engine) Explore(harness string, b HarnessBounds, nworkers int, solverKind string, stopOnViolation ...bool) *HarnessResult {
+	ex := &Explorer{stopOnViolation: len(stopOnViolation) > 0 && stopOnViolation[0], eng: e, harness: harness, bounds: b, solver: solverKind,
 		funcs: map[string]bool{}, intr: map[string]bool{}, stubs: map[string]bool{}, violSeen: map[string]bool{}}
 	ex.cond = sync.NewCond(&ex.mu)
 	ex.res = &HarnessResult{Harness: harness, Outcomes: map[string]int{}, Details: map[string]int{}, Reach: map[string]int{}, Bounds: b}
@@ -223,35 +224,35 @@ type Exec struct {
 	inVars  []*Term
 	inNames []string
 	// observations
-	obsLabels []string
-	obsTerms  []Value
-	reach     map[string]bool
-	asserts   int
-	assertsOK int
-	viols     []ViolationRec
-	pkgInit   map[string]bool
-	globals   map[interface{}]*Value
-	funcsSeen map[string]bool
-	intrSeen  map[string]bool
-	stubSeen  map[string]bool
-	curFrame  *frame
-	threads   *threadState
-	chanID    int
-	mapOrderNondet bool
-	allocBound     int64 // 0 = off; else alloc-size assertion bound
-	allocInputLen  int64
-	threadsEnabled bool
-	maxSched       int
-	locks          map[*Value]*lockState
-	wgs            map[*Value]int64
-	onceDone       map[*Value]bool
-	sharedBuild    string
-	loopBudget     int
-	stepBudget     int64
+	obsLabels       []string
+	obsTerms        []Value
+	reach           map[string]bool
+	asserts         int
+	assertsOK       int
+	viols           []ViolationRec
+	pkgInit         map[string]bool
+	globals         map[interface{}]*Value
+	funcsSeen       map[string]bool
+	intrSeen        map[string]bool
+	stubSeen        map[string]bool
+	curFrame        *frame
+	threads         *threadState
+	chanID          int
+	mapOrderNondet  bool
+	allocBound      int64 // 0 = off; else alloc-size assertion bound
+	allocInputLen   int64
+	threadsEnabled  bool
+	maxSched        int
+	locks           map[*Value]*lockState
+	wgs             map[*Value]int64
+	onceDone        map[*Value]bool
+	sharedBuild     string
+	loopBudget      int
+	stepBudget      int64
 	stepBudgetStart int64
-	lastPanicWhere string
-	inInit         map[*ssa.Package]bool
-	clock          *Term
+	lastPanicWhere  string
+	inInit          map[*ssa.Package]bool
+	clock           *Term
 }
 
 func (x *Exec) replaying() bool { return x.pos < len(x.prefix) }
@@ -295,6 +296,9 @@ func (ex *Explorer) runPath(sol *Solver, prefix []Decision) {
 		if len(r.Violations) < 64 {
 			r.Violations = append(r.Violations, v)
 		}
+	}
+	if ex.stopOnViolation && len(r.Violations) > 0 {
+		ex.stop = true
 	}
 	if out == Infeasible {
 		r.Infeasible++
